@@ -34,6 +34,7 @@ struct Args {
     std::vector<std::string> known;
     bool no_baseline = false;
     bool keep_going = false;
+    bool isolate = false;   // every run in its own forked process (no process history shared between runs)
 };
 
 std::string sig_name(int s) {
@@ -484,7 +485,12 @@ int cmd_run(const Args &a) {
                 shm->w[k].run = (int64_t)i; shm->w[k].beat++;
                 Plan p = plan_for_index(a, armed, i, nbase);
                 uint64_t c0 = wo.st.c[CT_CHECKS_ARMED], o0 = wo.st.c[CT_OPS] - wo.st.c[CT_OPS_SKIPPED];
-                RunResult rr = execute_plan(p, armed, wo.st);
+                RunResult rr;
+                if (a.isolate) {   // fresh process per run: what this run does cannot depend on the runs before it
+                    ChildResult cr = run_child(p, armed, 120);
+                    rr.ehash = cr.ok ? cr.ehash ^ (cr.violated ? hash_bytes((const uint8_t *)cr.cls.data(), cr.cls.size()) : 0) : 0xDEAD;
+                    wo.st.c[CT_RUNS]++;
+                } else rr = execute_plan(p, armed, wo.st);
                 wo.runs++;
                 wo.digest += mix2(i, rr.ehash);
                 if (hf) fprintf(hf, "%llu %016llx\n", (unsigned long long)i, (unsigned long long)rr.ehash);
@@ -874,6 +880,7 @@ int main(int argc, char **argv) {
         else if (k == "--known") a.known.push_back(val());
         else if (k == "--tree") a.tree = val();
         else if (k == "--no-baseline") a.no_baseline = true;
+        else if (k == "--isolate") a.isolate = true;
         else if (k == "--variant") g_variant = strdup(val().c_str());
         else if (k == "--trng-flavor") g_trng_flavor = strdup(val().c_str());
         else if (a.mode == "replay" && a.file.empty()) a.file = k;
